@@ -148,6 +148,15 @@ pub fn run(ctx: &Ctx, model: &mut Model, rep: &mut Report) {
     rep.count_n("corr_pairs_exhaustive", (ks.len() * ds.len()) as u64);
     rep.count_n("corr_random_pairs", n_random as u64);
 
+    // repaired defects: their witnesses run as ordinary corpus cases
+    for f in crate::known::load(ctx, "C15").into_iter().filter(|f| f.status == "fixed") {
+        if let (Some(k), Some(d)) = (f.witness["key"].as_str(), f.witness["dir"].as_str()) {
+            rep.count("corpus_fixed_witnesses");
+            if let Err(e) = round_trip(k, d) {
+                rep.fail(json!({"kind": "round_trip", "key": k, "dir": d, "what": format!("regression of repaired defect {}: {}", f.id, e)}));
+            }
+        }
+    }
     // ---------- oracle on the implementation ----------
     let norm_names = ["a", "b", "c"];
     let odepth = if thorough { 4 } else { 3 };
